@@ -128,13 +128,13 @@ type threadTrace struct {
 	TmpOpen  bool   // a file was created in the store and no rename/unlink followed yet
 	Last     string // last call entered in the window
 	LastRet  string
-	LastOrd  int    // absolute per-thread ordinal of that call among calls of the same name
-	EFBIGOrd int    // absolute ordinal of the first write that failed with EFBIG (0 = none)
-	Short    bool   // a write stored some but not all of its bytes
+	LastOrd  int  // absolute per-thread ordinal of that call among calls of the same name
+	EFBIGOrd int  // absolute ordinal of the first write that failed with EFBIG (0 = none)
+	Short    bool // a write stored some but not all of its bytes
 }
 
 type traceInfo struct {
-	Threads  []*threadTrace       // writer threads in order of their begin marker
+	Threads  []*threadTrace         // writer threads in order of their begin marker
 	Other    map[int]map[string]int // per tid totals of threads that never issued a marker
 	Killed   bool
 	KilledIn *threadTrace // writer thread whose pending call had no result when the process died
